@@ -655,15 +655,22 @@ class KeyChecker:
                 ins2 = [e for e in st2.effects[base_eff:] if e[0] in ('tree_insert', 'chain_insert', 'tree_find', 'chain_find')]
                 for (_t1, cont1, keyP, compP, objP, ifid1, _snap1) in ins1:
                     for (t2, cont2, keyQ, compQ, objQ, ifid2, snap2) in ins2:
+                        selector = None
                         if cont1 != cont2:
-                            continue
-                        tname = self.table_name(cont1, st2)
+                            # one of several tables selected by a value computed from the request (`tables[f(q)].insert(...)`): the same
+                            # table when both requests compute the selector the same way; the selector is then part of the key
+                            if isinstance(cont1, tuple) and isinstance(cont2, tuple) and cont1[:1] == ('index',) and cont2[:1] == ('index',) \
+                                    and cont1[1] == cont2[1] and subst_q(cont2[2]) == cont1[2] and params_in(cont2[2]):
+                                selector = cont2[2]
+                            else:
+                                continue
+                        tname = self.table_name(cont1[1] if selector is not None else cont1, st2)
                         inst = f'{contracts.short(contracts.fn_qname(f2["id"]))}{sig2}/{tname}' + ('' if t2.endswith('insert') else '/find')
                         if inst in self.tables_seen:
                             continue
                         self.tables_seen[inst] = True
                         hit.append(tname)
-                        self.pair(f2, inst, snap2, objP, keyQ, compQ, ifid2, n2, extra_covered)
+                        self.pair(f2, inst, snap2, objP, keyQ, compQ, ifid2, n2, extra_covered, selector=selector)
         return hit
 
     def finish_orders(self):
@@ -692,7 +699,7 @@ class KeyChecker:
             parts.append(contracts.render(t, st, {}))
         return '.'.join(reversed(parts))
 
-    def pair(self, f, inst, st, objP, keyQ, compQ, tree_fid, nparams, extra_covered=()):
+    def pair(self, f, inst, st, objP, keyQ, compQ, tree_fid, nparams, extra_covered=(), selector=None):
         F, S, ck = self.F, self.S, self.ck
         cmp_fid = comparator_in(F, tree_fid)
         cf = F.fn.get(cmp_fid)
@@ -764,6 +771,15 @@ class KeyChecker:
                  f'comparator {contracts.short(contracts.fn_qname(cmp_fid))} selected for ({F.rec.get(st_any.heap[objP[1]].cls, {}).get("simple", "element")}, key): '
                  + '; '.join(bad) + ' -- a repeated request never finds its element', loc=loc, fn=cmp_fid,
                  detail={'comparator': cmp_fid, 'components': sample})
+        if selector is not None:
+            # the value that selects the table tells requests apart as far as it determines their parameters
+            rs = contracts.render(selector, st_any, {})
+            for p in {p - Q for p in params_in(selector) if p >= Q}:
+                covered.add(p)
+                if determines(selector, p + Q):
+                    full.add(p)
+                else:
+                    partial.setdefault(p, set()).add((rs, selector))
         for c, _val in st.conds:
             if isinstance(c, tuple) and c and c[0] in ('found', 'noelem'):
                 continue
